@@ -12,6 +12,10 @@ LEVEL_NOTE = (
 
 def judge(res, o, lean):
     cfg = o["cfg"]
+    if o.get("status") == "exc" and o.get("found") and "Can't find a rule for ForestRuleKey" not in o.get("exc", ""):
+        # the database holds a specification for the start class, but building its rules (reverse / equivalence forms) fails
+        # (the ForestRuleKey message is C11's known finding F14 and is judged there)
+        res.fail("search-finds-a-specification-but-raises-instead-of-handing-it-back", cfg, o["exc"])
     if lean is None or "line" not in o:
         return
     chk, msh, _status, _model = speccheck.parse_lean(lean)
